@@ -28,10 +28,18 @@ def st_async_case(draw: st.DrawFn, tier: str) -> dict:
     peer_writes = draw(st.lists(SIZES, min_size=0, max_size=6))
     if not sut_writes and not peer_writes:
         sut_writes = [draw(SIZES)]
+    if draw(st.integers(0, 7)) == 0:
+        # one write of several hundred KiB: its ciphertext is larger than the 256 KiB buffers of the TLS transport
+        sut_writes = [draw(st.sampled_from([300000, 700000]))] + sut_writes[:2]
+        peer_writes = peer_writes[:2]
     frag_to_sut = draw(FRAGS)
     frag_to_peer = draw(FRAGS)
     total = sum(sut_writes) + sum(peer_writes)
     # byte-by-byte delivery of hundreds of KiB is slow without adding schedule diversity: cap the volume in that class
+    if max(sut_writes + peer_writes) > 100000:
+        # a write of several hundred KiB (ciphertext larger than the transport's 256 KiB buffers): keep deliveries coarse
+        frag_to_sut = [1 << 20]
+        frag_to_peer = [1 << 20]
     if (frag_to_sut == [1] or frag_to_peer == [1] or max(frag_to_sut) <= 40 or max(frag_to_peer) <= 40) and total > (60000 if big else 20000):
         sut_writes = [min(s, 3000) for s in sut_writes]
         peer_writes = [min(s, 3000) for s in peer_writes]
@@ -240,6 +248,8 @@ def run_async_case(case: dict) -> Outcome:
         classes.append("bytewise-to-sut")
     if max(case["sut_writes"] + [0]) > 16384:
         classes.append("multi-record-write")
+    if max(case["sut_writes"] + [0]) > 262144:
+        classes.append("write-larger-than-256KiB")
     return Outcome(nontrivial=both and split, classes=tuple(classes))
 
 
@@ -401,7 +411,7 @@ CHECK = Check(
         "data and ciphertext to the SUT is fragmented below record size over >= 2 deliveries; distinct = sha1(case)"
     ),
     layers=[
-        Layer("async", st_async_case, run_async_case, {"quick": 450, "thorough": 2000}),
+        Layer("async", st_async_case, run_async_case, {"quick": 350, "thorough": 2000}),
         Layer("sync", st_sync_case, run_sync_case, {"quick": 150, "thorough": 1000}),
     ],
     assumptions=[
